@@ -586,10 +586,7 @@ def _attr_number_kind(ctx, cls, attr):
 
 # =============================================================================== R20.5
 def _format_precision(ctx, col):
-    logm = ctx.repo.module("mdpax.utils.logging")
-    gfn = logm.functions.get("get_convergence_format")
-    if gfn is None:
-        raise AnalysisError("anchor vanished: mdpax.utils.logging.get_convergence_format")
+    logm, gfn = ctx.repo.public_function("mdpax.utils.logging.get_convergence_format")
     for cls in ctx.solvers():
         ca = ctx.ct.class_attr(cls, "Config")
         cfg = ctx.ct.class_of_dotted(ctx.ct.resolve_name(ca[0].module, ast.unparse(ca[1])))
@@ -787,10 +784,7 @@ LEVELS = {0: "ERROR", 1: "WARNING", 2: "INFO", 3: "DEBUG", 4: "TRACE"}
 
 
 def _verbosity(ctx, col):
-    m = ctx.repo.module("mdpax.utils.logging")
-    fn = m.functions.get("verbosity_to_loguru_level")
-    if fn is None:
-        raise AnalysisError("anchor vanished: mdpax.utils.logging.verbosity_to_loguru_level")
+    m, fn = ctx.repo.public_function("mdpax.utils.logging.verbosity_to_loguru_level")
     # the table: a dict literal keyed by level, or a tuple / list literal whose position is the level
     def as_table(n):
         try:
